@@ -33,6 +33,11 @@ def warm():
         from dsim import c12  # noqa
     except ImportError:
         pass
+    # everything imported so far becomes permanent: a child's gc.collect() (at run start and as injected
+    # fault F6) then only looks at what the run itself allocated, and fork stays copy-on-write friendly
+    import gc
+    gc.collect()
+    gc.freeze()
 
 
 def serve():
